@@ -18,7 +18,7 @@ def chipOf? (s : String) : Option Chip := Chip.all.find? (fun c => c.name == s)
 
 def b01 (b : Bool) : String := if b then "1" else "0"
 
-def handle (ws : List String) : String :=
+def handleBase (ws : List String) : String :=
   match ws with
   | ["mod", sf, bw] =>
     match parseInt? sf >>= sfOf?, parseInt? bw >>= bwOf? with
@@ -44,5 +44,14 @@ def handle (ws : List String) : String :=
       s!"{m}|{s}"
     | _, _, _, _, _, _ => "bad-op"
   | _ => "bad-op"
+
+def handle (ws : List String) : String :=
+  match ws with
+  | ["flow", chip, sf, bw, cr, rf, prior, _pp] =>
+    -- the packet-parameter write that follows in a TX/RX preparation leaves the flag alone
+    -- (SX126x/LR11xx: a different command; SX1276: another register; SX1272: same register, the
+    -- read-modify-write keeps bit 0): the answer is that of `ldro`
+    handleBase ["ldro", chip, sf, bw, cr, rf, prior]
+  | _ => handleBase ws
 
 end Driver.C15
